@@ -359,6 +359,61 @@ impl<'f> Enc<'f> {
     fn enc_decl(&mut self, d: &Arc<Decl>, v: &Val, f: &mut Frag) -> Result<(), EncErr> {
         match (&d.body, v) {
             (DeclBody::Struct(r), Val::Rec(fs)) => self.enc_record(r, fs, f),
+            (DeclBody::Enum { variants, steps, .. }, Val::Variant(i, fs)) if !steps.is_empty() => {
+                // the enum carries evolution steps of its own: version byte, header, and the constructor index with
+                // the case's record as the content of chunk 0 (every other chunk is empty: an enum has no fields)
+                let var = variants.get(*i).ok_or_else(|| EncErr::Shape("variant index".into()))?;
+                f.u8(SiteKind::Version, steps.len() as u8);
+                if var.transient {
+                    return Err(EncErr::SerializingTransientConstructor { type_name: d.name.clone(), constructor_name: var.name.clone() });
+                }
+                let removed_set: std::vec::Vec<&str> = steps
+                    .iter()
+                    .filter_map(|s| match s {
+                        Step::Removed { name } | Step::MadeTransient { name } => Some(name.as_str()),
+                        _ => None,
+                    })
+                    .collect();
+                enum H {
+                    Chunk0,
+                    Empty,
+                    Removed(i32, bool, String),
+                }
+                let mut header = vec![H::Chunk0];
+                for s in steps {
+                    match s {
+                        Step::Added { .. } => header.push(H::Empty),
+                        Step::MadeOptional { name } if !removed_set.contains(&name.as_str()) => return Err(EncErr::UnknownFieldReferenceInEvolutionStep(name.clone())),
+                        Step::MadeOptional { name } | Step::Removed { name } | Step::MadeTransient { name } => {
+                            let (id, new) = self.intern(name);
+                            header.push(H::Removed(id, new, name.clone()));
+                        }
+                    }
+                }
+                let mut chunk = Frag::default();
+                chunk.vu32(SiteKind::CtorIdx, d.ctor_index(*i) as u32);
+                self.enc_record(&var.record, fs, &mut chunk)?;
+                for h in header {
+                    match h {
+                        H::Chunk0 => f.vi32(SiteKind::ChunkSize, chunk.bytes.len() as i32),
+                        H::Empty => f.vi32(SiteKind::ChunkSize, 0),
+                        H::Removed(id, new, name) => {
+                            f.vi32(SiteKind::StepCode, -2);
+                            let st = f.bytes.len();
+                            if new {
+                                self.string(&name, f)
+                            } else {
+                                f.vi32(SiteKind::DedupRef, -id)
+                            }
+                            f.site(SiteKind::RemovedName, st, 0);
+                        }
+                    }
+                }
+                let st = f.bytes.len();
+                f.append(chunk);
+                f.site(SiteKind::Chunk, st, 0);
+                Ok(())
+            }
             (DeclBody::Enum { variants, .. }, Val::Variant(i, fs)) => {
                 let var = variants.get(*i).ok_or_else(|| EncErr::Shape("variant index".into()))?;
                 // the enum's own record: version 0, no header
@@ -1126,7 +1181,11 @@ pub fn has_dedup_sources(ty: &Ty) -> bool {
                 DeclBody::Struct(r) => vec![r],
                 DeclBody::Enum { variants, .. } => variants.iter().map(|v| &v.record).collect(),
             };
-            recs.iter().any(|r| r.steps.iter().any(|s| matches!(s, Step::Removed { .. } | Step::MadeTransient { .. })))
+            let own = match &d.body {
+                DeclBody::Enum { steps, .. } => steps.iter().any(|s| matches!(s, Step::Removed { .. } | Step::MadeTransient { .. })),
+                _ => false,
+            };
+            own || recs.iter().any(|r| r.steps.iter().any(|s| matches!(s, Step::Removed { .. } | Step::MadeTransient { .. })))
         }
         _ => false,
     })
